@@ -56,7 +56,11 @@ ASSUMPTIONS = [
 RULE = ("sweep cases: for a (file, year, month) every day × every breakpoint of the file (and midnight/end of "
         "day) × offsets {0, ±1 s, ±60 s}, for 14 years = one per calendar type (weekday of Jan 1 × leap); vector "
         "cases: get_tariffs from random starts 1960–2070 (some with microseconds), n ≤ 400, period ∈ {1,5,7,15,60} "
-        "min; iface cases: Interface.get_prices/get_demand_charge on a real Simulator with the tariff as signal and "
+        "min; run cases: a real Simulator run placed so that a breakpoint / weekday-weekend midnight / season change "
+        "falls inside it, the scheduler asking Interface.get_prices(n, start) and get_demand_charge(start) at iterations "
+        "0, 1, mid-run, last and after the run for start ∈ {None, 0, 1, t−1, t, t+1, t+n} as Python and numpy ints, "
+        "Σ get_prices(T,0)·power·dt against acnsim.energy_cost; iface cases: get_prices/get_demand_charge on an idle "
+        "Simulator with the tariff as signal and "
         "acnsim.energy_cost/demand_charge on random charging rates; load cases: loader output; decimal case: all "
         "86 400 seconds; thorough adds every minute of every day of the 14 years for all five files (run-length "
         "encoded per day).  non-trivial = touches an instant within 60 s of a breakpoint, a season boundary day, "
@@ -254,6 +258,14 @@ def corpus():
     out.append({"t": "vec", "file": "sce_tou_ev_8_june_2019", "start": ep(datetime(2019, 7, 1, 15, 55)), "us": 500000, "n": 8, "period": 1, "fperiod": 2.5, "tz": "+05:30"})
     out.append({"t": "vec", "file": "sce_tou_ev_8_june_2019", "start": ep(datetime(2019, 7, 1, 15, 59, 59)), "us": 999000, "n": 9, "period": 1, "fperiod": 0.01})
     out.append({"t": "vec", "file": "sce_tou_ev_8_june_2019", "start": ep(datetime(2019, 7, 1, 16, 0, 30)), "us": 0, "n": 9, "period": 1, "fperiod": -0.125})
+    # explicit start=0 while the simulation is at a later iteration, window across the 12:00 breakpoint /
+    # across the Fri→Sat midnight / across the season change (demand charge differs)
+    out.append({"t": "run", "file": "sce_tou_ev_4_march_2019", "sim_start": ep(datetime(2019, 7, 1, 11, 30)), "period": 15,
+                "T": 8, "n": 3, "volt": 208, "rates": [16, 32, 8]})
+    out.append({"t": "run", "file": "sce_tou_ev_8_june_2019", "sim_start": ep(datetime(2019, 7, 5, 21, 0)), "period": 60,
+                "T": 6, "n": 2, "volt": 240, "rates": [32]})
+    out.append({"t": "run", "file": "pge_a10_tou_aug_2019", "sim_start": ep(datetime(2019, 10, 31, 23, 0)), "period": 15,
+                "T": 10, "n": 4, "volt": 208, "rates": [8, 0, 16]})
     # microseconds just below / above a breakpoint
     out.append({"t": "instants", "file": "sce_tou_ev_4_march_2019", "us": 999999,
                 "ts": [ep(datetime(2019, 7, 1, 11, 59, 59)), ep(datetime(2019, 7, 1, 12, 0, 0)), ep(datetime(2019, 12, 31, 23, 59, 59))]})
@@ -302,6 +314,38 @@ def _gen_iface(rng):
             "iteration": rng.randint(0, 300)}
 
 
+def _boundary_instants(name, rng):
+    """an instant at which the price (or the demand charge) changes: a breakpoint on a weekday, midnight
+    between a weekday and the weekend, or midnight of a season change"""
+    r = rng.random()
+    y = rng.choice(YEARS14)
+    if r < 0.45:
+        d = datetime(y, rng.randint(1, 12), rng.randint(1, 28))
+        while d.weekday() >= 5:
+            d += timedelta(days=1)
+        inner = [b for b in file_breakpoint_secs(name) if 0 < b < 86399]
+        return ep(d) + rng.choice(inner)
+    if r < 0.7:
+        d = datetime(y, rng.randint(1, 12), rng.randint(1, 25))
+        while d.weekday() != rng.choice([5, 0]):   # Fri→Sat or Sun→Mon midnight
+            d += timedelta(days=1)
+        return ep(d)
+    ents = spec_file(name)["schedule"]
+    mo, dd = _md(rng.choice(ents)["effective_start"])
+    return ep(datetime(y, mo, dd)) + rng.choice([0] + [b for b in file_breakpoint_secs(name) if 0 < b < 86399])
+
+
+def _gen_run(rng):
+    f = rng.choice(FILES)
+    p = rng.choice(PERIODS)
+    T = rng.randint(4, 36)
+    j = rng.randint(1, T - 1)           # the boundary falls on iteration j of the run
+    boundary = _boundary_instants(f, rng)
+    return {"t": "run", "file": f, "sim_start": boundary - j * p * 60, "period": p, "T": T,
+            "n": rng.choice([1, 2, 3, T, rng.randint(1, T + 5)]), "volt": rng.choice([208, 240, 277]),
+            "rates": [rng.choice([0, 6, 8, 16, 32, round(rng.uniform(0, 32), 2)]) for _ in range(rng.randint(1, 7))]}
+
+
 def generate(rng, n, tier):
     out = []
     # deterministic sweep: every day of the 14 calendar types, all five files
@@ -310,7 +354,7 @@ def generate(rng, n, tier):
             for mo in range(1, 13):
                 out.append({"t": "sweep", "file": f, "year": y, "month": mo})
     for i in range(n):
-        out.append(_gen_iface(rng) if i % 3 == 2 else _gen_vec(rng))
+        out.append(_gen_run(rng) if i % 3 == 2 else (_gen_iface(rng) if i % 9 == 4 else _gen_vec(rng)))
     if tier == "thorough":
         for f in FILES:
             for y in YEARS14:
@@ -328,7 +372,7 @@ def search(rng, n):
             for mo in range(1, 13):
                 out.append({"t": "sweep", "file": f, "year": y, "month": mo})
     for i in range(n):
-        out.append(_gen_iface(rng) if i % 3 == 2 else _gen_vec(rng))
+        out.append(_gen_run(rng) if i % 3 == 2 else _gen_vec(rng))
     return out
 
 
@@ -445,6 +489,8 @@ def run_impl(case):
         return {"days": [d for ch in chunks for d in ch]}
     if t == "iface":
         return _run_iface(case, tar)
+    if t == "run":
+        return _run_real(case, tar)
     raise ValueError(t)
 
 
@@ -491,6 +537,76 @@ def _run_iface(case, tar):
     return out
 
 
+def run_starts(t, n):
+    """explicit `start` arguments tried at iteration t (None = the default)"""
+    out = [None]
+    for k in (0, 1, t - 1, t, t + 1, t + n):
+        if k not in out:
+            out.append(k)
+    return out
+
+
+def run_probe_iterations(T):
+    return sorted({0, 1, T // 2, T - 1} & set(range(T)))
+
+
+def _run_real(case, tar):
+    """A real Simulator run (one EV connected for the whole run, a scheduler that is invoked every period);
+    at iterations 0, 1, mid-run and the last one the scheduler asks its Interface for prices and demand charge
+    with start ∈ {None, 0, 1, t-1, t, t+1, t+n}, as Python ints and as numpy ints; after the run the same
+    questions are asked at the final iteration and Σ get_prices(T, 0)·power·dt is compared with energy_cost."""
+    from acnportal import acnsim
+    from acnportal.acnsim import Simulator, EventQueue, Interface
+    from acnportal.acnsim.events import PluginEvent
+    from acnportal.acnsim.models import EV, Battery
+    from acnportal.acnsim.network import ChargingNetwork, Current
+    from acnportal.acnsim.models.evse import EVSE
+    from acnportal.algorithms import BaseAlgorithm
+    T, n, rates = case["T"], case["n"], case["rates"]
+    probes = run_probe_iterations(T)
+    record = []
+
+    def ask(iface, t, where):
+        for k in run_starts(t, n):
+            for np_int in (False, True):
+                if k is None and np_int:
+                    continue
+                arg = np.int64(k) if np_int else k
+                record.append({"at": t, "where": where, "start": k, "np": np_int,
+                               "prices": _call(iface.get_prices, n, arg) if k is not None else _call(iface.get_prices, n),
+                               "demand": _call(iface.get_demand_charge, arg) if k is not None else _call(iface.get_demand_charge)})
+
+    class Rec(BaseAlgorithm):
+        def __init__(self):
+            super().__init__()
+            self.max_recompute = 1
+
+        def schedule(self, active_sessions):
+            t = self.interface.current_time
+            if t in probes:
+                ask(self.interface, t, "scheduler")
+            return {s.station_id: [rates[t % len(rates)]] for s in active_sessions}
+
+    net = ChargingNetwork()
+    net.register_evse(EVSE("S0", max_rate=32), case["volt"], 0)
+    net.add_constraint(Current(["S0"]), 1000, name="c")
+    ev = EV(0, T, 1e6, "S0", "sess0", Battery(1e6, 0, 1e6))
+    sim = Simulator(net, Rec(), EventQueue([PluginEvent(0, ev)]), dt(case["sim_start"]), period=case["period"],
+                    signals={"tariff": tar}, verbose=False)
+    sim.run()
+    final = int(sim.iteration)
+    iface = Interface(sim)
+    ask(iface, final, "after_run")
+    agg = acnsim.aggregate_power(sim)
+    L = len(agg)
+    whole = _call(iface.get_prices, L, 0)
+    out = {"queries": record, "final": final, "agg": [float(x) for x in agg], "whole": whole,
+           "energy_cost": _call(acnsim.energy_cost, sim), "demand_charge": _call(acnsim.demand_charge, sim)}
+    if isinstance(whole, list):
+        out["sum_prices_power_dt"] = float(np.array(whole).dot(agg) * (case["period"] / 60))
+    return out
+
+
 # ------------------------------------------------------------------ model
 
 def _py_fields(t):
@@ -521,7 +637,10 @@ def model_request(case):
     if t == "iface":
         # several driver ops in one case: pack them as a list handled by `_ask_many`
         return {"op": "iface", "file": case["file"], "sim_start": case["sim_start"], "period": case["period"],
-                "idx": case["queries"][0][0], "n": case["queries"][0][1]}
+                "iteration": 0, "start": case["queries"][0][0], "n": case["queries"][0][1]}
+    if t == "run":
+        return {"op": "iface", "file": case["file"], "sim_start": case["sim_start"], "period": case["period"],
+                "iteration": 0, "start": None, "n": 1}
     return None
 
 
@@ -611,12 +730,33 @@ def compare(case, obs, model):
         if len(obs["days"]) != len(model["days"]):
             out.append("number of days differs")
         return out
+    if t == "run":
+        drv = _driver()
+        base = {"file": case["file"], "sim_start": case["sim_start"], "period": case["period"]}
+        reqs = [dict(base, op="iface", iteration=q["at"], start=q["start"], n=case["n"]) for q in obs["queries"]]
+        reqs.append(dict(base, op="iface", iteration=obs["final"], start=0, n=len(obs["agg"])))
+        reqs.append(dict(base, op="cost", agg=[f2b(x) for x in obs["agg"]]))
+        res = drv.ask(reqs)
+        for q, r in zip(obs["queries"], res):
+            tag = f"iteration {q['at']} ({q['where']}) start={q['start']}{' (numpy int)' if q['np'] else ''}"
+            if not _same(q["prices"], _mval(r["prices"])):
+                out.append(f"get_prices({case['n']}, {q['start']}) at {tag}: impl={str(q['prices'])[:120]} model={str(_mval(r['prices']))[:120]}")
+            if not _same(q["demand"], _mval(r["demand"])):
+                out.append(f"get_demand_charge at {tag}: impl={q['demand']} model={_mval(r['demand'])}")
+        if not _same(obs["whole"], _mval(res[-2]["prices"])):
+            out.append("get_prices(T, 0) after the run differs from the model")
+        c = res[-1]
+        if not _same(obs["energy_cost"], _mval(c["energy_cost"])):
+            out.append(f"energy_cost impl={obs['energy_cost']} model={_mval(c['energy_cost'])}")
+        if not _same(obs["demand_charge"], _mval(c["demand_charge"])):
+            out.append(f"demand_charge impl={obs['demand_charge']} model={_mval(c['demand_charge'])}")
+        return out[:6]
     if t == "iface":
         drv = _driver()
-        reqs = [{"op": "iface", "file": case["file"], "sim_start": case["sim_start"], "period": case["period"], "idx": idx, "n": n}
-                for idx, n in case["queries"]]
+        reqs = [{"op": "iface", "file": case["file"], "sim_start": case["sim_start"], "period": case["period"],
+                 "iteration": 0, "start": idx, "n": n} for idx, n in case["queries"]]
         reqs.append({"op": "iface", "file": case["file"], "sim_start": case["sim_start"], "period": case["period"],
-                     "idx": case["iteration"], "n": 3})
+                     "iteration": case["iteration"], "start": None, "n": 3})
         reqs.append({"op": "cost", "file": case["file"], "sim_start": case["sim_start"], "period": case["period"],
                      "agg": [f2b(x) for x in obs["agg"]]})
         res = drv.ask(reqs)
@@ -716,6 +856,37 @@ def oracle(case, obs):
             if k != 1440:
                 fails.setdefault(f"vector_misaligned:{name}", f"{d}: {k} minutes")
             d += timedelta(days=1)
+    elif t == "run":
+        st = dt(case["sim_start"])
+        p = case["period"]
+        n = case["n"]
+        for q in obs["queries"]:
+            idx = q["at"] if q["start"] is None else q["start"]   # an explicit start is taken as given, 0 included
+            s0 = st + idx * timedelta(minutes=p)
+            tag = f"at iteration {q['at']} ({q['where']}{', numpy int' if q['np'] else ''}) period {p}"
+            before = set(fails)
+            _check_vector(name, s0, n, p, q["prices"], fails, f"Interface.get_prices({n}, start={q['start']}) {tag}")
+            if f"vector_misaligned:{name}" in fails and f"vector_misaligned:{name}" not in before:
+                fails[f"interface_misaligned:{name}"] = fails.pop(f"vector_misaligned:{name}")
+            before = set(fails)
+            _check_instant(name, s0, q["demand"], fails, f"Interface.get_demand_charge(start={q['start']}) {tag}", True)
+            if f"demand_wrong:{name}" in fails and f"demand_wrong:{name}" not in before:
+                fails[f"interface_demand_misaligned:{name}"] = fails.pop(f"demand_wrong:{name}")
+        agg = obs["agg"]
+        specs = [spec_lookup(name, st + k * timedelta(minutes=p)) for k in range(len(agg))]
+        if all(sp[0] == "ok" for sp in specs):
+            exp = sum(sp[1] * a for sp, a in zip(specs, agg)) * (p / 60)
+            if isinstance(obs["energy_cost"], str) or not close(obs["energy_cost"], exp):
+                fails[f"energy_cost_wrong:{name}"] = f"energy_cost={obs['energy_cost']} expected Σ price·power·dt = {exp}"
+            got = obs.get("sum_prices_power_dt")
+            if got is None or not close(got, exp) or isinstance(obs["energy_cost"], str) or not close(got, obs["energy_cost"]):
+                fails[f"interface_sum_differs_from_energy_cost:{name}"] = (
+                    f"Σ get_prices(T,0)·power·dt = {got} (get_prices → {str(obs['whole'])[:80]}), energy_cost = {obs['energy_cost']}, expected {exp}")
+            expd = specs[0][2] * max(agg)
+            if isinstance(obs["demand_charge"], str) or not close(obs["demand_charge"], expd):
+                fails[f"demand_charge_wrong:{name}"] = f"demand_charge={obs['demand_charge']} expected rate×peak = {expd}"
+        if obs["final"] < case["T"] or len(agg) < case["T"]:
+            fails["run_shape"] = f"final iteration {obs['final']}, {len(agg)} columns for T={case['T']}"
     elif t == "iface":
         st = dt(case["sim_start"])
         p = case["period"]
@@ -751,6 +922,9 @@ def nontrivial(case, obs):
     bps = file_breakpoint_secs(name)
     if t == "instants":
         return any(min(abs((x % 86400) - b) for b in bps) <= 60 for x in case["ts"])
+    if t == "run":
+        # the rates differ inside the run, so a window shifted by the wrong start is visible
+        return isinstance(obs["whole"], list) and len(set(obs["whole"])) > 1
     if t == "vec":
         return case["n"] > 0 and (case["start"] % 86400) + case["n"] * case["period"] * 60 > 86400 or case["n"] >= 10
     return True
@@ -779,6 +953,19 @@ def features(case, obs):
             out.append("tz:" + case["tz"])
         if "fperiod" in case:
             out.append("float_period:" + str(round(case["fperiod"], 5)))
+    if t == "run":
+        out.append("period:" + str(case["period"]))
+        seen = set()
+        for q in obs["queries"]:
+            idx = q["at"] if q["start"] is None else q["start"]
+            kind = ("none" if q["start"] is None else "zero" if q["start"] == 0 else "before" if idx < q["at"]
+                    else "current" if idx == q["at"] else "after")
+            seen.add(f"run_start:{kind}{'@it>0' if q['at'] > 0 else '@it0'}")
+            if isinstance(q["prices"], list) and len(set(q["prices"])) > 1:
+                seen.add("run_window_has_different_rates")
+        if isinstance(obs["whole"], list) and len(set(obs["whole"])) > 1:
+            seen.add("run_crosses_rate_change")
+        out.extend(sorted(seen))
     if t == "iface":
         out.append("period:" + str(case["period"]))
         out.append("cost_result:" + ("error" if isinstance(obs["energy_cost"], str) else "ok"))
